@@ -365,6 +365,7 @@ class AllocSite:
     managed: bool  # used as a context manager
     func: str = ""
     module: str = ""
+    target: str = ""  # text of the ``as`` target
 
     @property
     def kind(self):
@@ -1399,18 +1400,61 @@ class Scanner:
         run.emissions.append(em)
         return OpV(key, em)
 
-    def wires_arg(self, cls, call):
-        for kw in call.keywords:
-            if kw.arg == "wires":
-                return kw.value
-        names = self.init_params(cls) if cls is not None else None
-        pos = [a for a in call.args]
-        if names and "wires" in names:
-            i = names.index("wires")
-            if i < len(pos) and not any(isinstance(a, ast.Starred) for a in pos[: i + 1]):
-                return pos[i]
+    def wire_argnames(self, cls):
+        """names of the constructor arguments that carry wires: the class's ``wire_argnames`` tuple
+        when it is a literal, else ("wires",)"""
+        if cls is None:
+            return ("wires",)
+        c, v = cls.lookup("wire_argnames")
+        if isinstance(v, (ast.Tuple, ast.List)) and all(isinstance(x, ast.Constant) and isinstance(x.value, str) for x in v.elts):
+            return tuple(x.value for x in v.elts)
+        return ("wires",)
+
+    def ctor_params(self, cls):
+        """positional parameter names of the constructor: ``__init__`` (own or inherited below the
+        operator base classes), else the keys of a literal ``arg_specs``; None when unknown"""
+        if cls is None:
             return None
-        return pos[-1] if pos and not isinstance(pos[-1], ast.Starred) else None
+        for c in cls.mro():
+            if c.name in ("Operator", "Operator2") and c.module.name.startswith("pennylane.core.operator"):
+                break
+            f = c.own_method("__init__")
+            if f is not None:
+                a = f.node.args
+                return [x.arg for x in a.posonlyargs + a.args][1:]
+        c, v = cls.lookup("arg_specs")
+        if isinstance(v, ast.Dict) and all(isinstance(k, ast.Constant) for k in v.keys):
+            return [k.value for k in v.keys]
+        return None
+
+    def wire_args_of(self, cls, call):
+        """{wire argument name: ast} of an operator constructor call, through the resolved signature
+        (never by position alone); {} when the signature is not known"""
+        out = {}
+        wn = self.wire_argnames(cls)
+        for kw in call.keywords:
+            if kw.arg in wn or kw.arg == "wires":
+                out[kw.arg] = kw.value
+        names = self.ctor_params(cls)
+        if names is None:
+            if cls is None and call.args and not call.keywords and len(call.args) == 1:
+                return out
+            return out
+        for i, a in enumerate(call.args):
+            if isinstance(a, ast.Starred):
+                break
+            if i < len(names) and (names[i] in wn or names[i] == "wires") and names[i] not in out:
+                out[names[i]] = a
+        return out
+
+    def wires_arg(self, cls, call):
+        w = self.wire_args_of(cls, call)
+        if "wires" in w:
+            return w["wires"]
+        for n in self.wire_argnames(cls):
+            if n in w:
+                return w[n]
+        return None
 
     def may_emit(self, f: FuncInfo, _depth=0):
         """does calling ``f`` (transitively, resolved callees only) construct operators?"""
@@ -1493,7 +1537,8 @@ class Scanner:
                     self.consume(a, run)
                 if starkw is not None:
                     self.consume(starkw, run)
-                return self.emit_value(key, e, run, wires=self.wires_arg(cls, e))
+                wa = self.wire_args_of(cls, e)
+                return self.emit_value(key, e, run, wires=self.wires_arg(cls, e), extra={k: v for k, v in wa.items() if k != "wires"})
             return SymV(f"{cls.name}(...)")
         if isinstance(fv, FuncV):
             return self.call_func(fv.func, args, kwargs, starkw, e, fr, run, curried)
@@ -2423,6 +2468,7 @@ class Scanner:
                     run.unres(f"context manager {norm(ce)[:50]}")
             if item.optional_vars is not None:
                 if isinstance(v, AllocV):
+                    v.site.target = norm(item.optional_vars)
                     self.assign(item.optional_vars, SymV(f"alloc{len(run.allocs)}", length=v.site.num if isinstance(v.site.num, Poly) else None), fr, run)
                 else:
                     self.assign(item.optional_vars, SymV(norm(item.optional_vars)), fr, run)
